@@ -1690,6 +1690,56 @@ def interval_of_padding(expr):
     return None, None
 
 
+def numeric_payload_rule(prog, res, rule='numeric-payload'):
+    """numeric values are decoded with the numeric readers: c3d::readString builds its result from a C string, so a zero byte
+    ends it - a run of BYTE / INT / REAL values read through it loses everything from the first 0x00 on"""
+    n = 0
+    for f in prog.fns('ezc3d::c3d::readParam'):
+        pts = [p_['type'] for p_ in f.params]
+        if not any('std::vector<int>' in t or 'std::vector<float>' in t for t in pts):
+            continue
+        n += 1
+        fam = [f] + [h for h, _s in _helper_family(prog, [f]) if h is not f]
+        hit = None
+        for h in fam:
+            for c in h.calls():
+                if c['callee']['name'] == 'readString' and c['callee'].get('classq') == 'ezc3d::c3d':
+                    hit = (h, c)
+        inst = 'c3d::readParam(%s)' % ('int values' if any('std::vector<int>' in t for t in pts) else 'float values')
+        if hit:
+            res.viol(rule, inst, hit[0].loc(hit[1]['id']), 'numeric values are fetched with readString(): the std::string it returns ends at the first zero byte of the block, so the value 0 and everything after it in '
+                     'that block are never decoded', function=f.sig, expr='readString-in-numeric', sure=True)
+        else:
+            res.ok(rule, inst, f.loc(), 'no string reader on the numeric path', function=f.sig, expr='readString-in-numeric@%s' % inst, nontrivial=False)
+    res.minimum('numeric readParam overloads', n, 2)
+
+
+def primitive_read_rule(prog, res, rule='primitive-read'):
+    """the primitive readers consume exactly the number of bytes they are asked for: readFile is called with the requested
+    count itself (readFloat: the member constant 4); a clamped count (std::min, a conditional) leaves the stream short of the
+    next field for every request above the clamp - e.g. a 255-character description"""
+    n = 0
+    for name in ('readInt', 'readUint', 'readString', 'readFloat'):
+        for f in prog.fns('ezc3d::c3d::' + name):
+            R = Renderer(f)
+            calls = [c for c in f.calls() if c['callee']['name'] == 'readFile' and c['callee'].get('class') == 'ezc3d::c3d']
+            inst = 'c3d::%s consumes what it is asked for' % name
+            if len(calls) != 1:
+                res.undecided(rule, inst, f.loc(), '%d calls of readFile [shape not read by the rule]' % len(calls), function=f.sig, expr='count:' + name)
+                continue
+            n += 1
+            a0 = uncast_render(R.render(f.call_args(calls[0])[0]))
+            want = ('arg0',) if name != 'readFloat' else ('this.m_nByteToRead_float', '4')
+            if a0 in want or (name == 'readFloat' and re.match(r'^\(?(unsigned int|int)?\)?\(?4', a0)):
+                res.ok(rule, inst, f.loc(calls[0]['id']), 'readFile(%s, ...)' % a0, function=f.sig, expr='count:' + name, nontrivial=False)
+            elif re.search(r'std::min\(|std::max\(| \? ', a0) and 'arg0' in a0:
+                res.viol(rule, inst, f.loc(calls[0]['id']), 'readFile is asked for %s bytes, not for the requested count: a request above the clamp consumes fewer bytes than the file holds for the field, and '
+                         'everything after it is read from the wrong position' % a0, function=f.sig, expr='count:' + name, sure=True)
+            else:
+                res.undecided(rule, inst, f.loc(calls[0]['id']), 'readFile is asked for %s bytes [shape not read by the rule]' % a0, function=f.sig, expr='count:' + name)
+    res.minimum('primitive readers', n, 3)
+
+
 _PATCHES = {}
 
 
